@@ -26,6 +26,7 @@ Definition names_of (f : pyval) : pyval :=
   | VObj "echo" _ => VList [VStr "a"; VStr "b"; VStr "c"]
   | VObj "boom" _ => VList [VStr "a"]
   | VObj "rankecho" _ => VList [VStr "a"]
+  | VObj "retnone" _ => VList [VStr "a"]
   | _ => VList []
   end.
 
@@ -34,6 +35,7 @@ Definition interp (rank : Z) (f : pyval) (pos : list pyval) (kw : pyval) : res p
   | VObj "echo" _ => Ok (VList [arg_or 0 "a" pos kw; arg_or 1 "b" pos kw; arg_or 2 "c" pos kw])
   | VObj "boom" _ => Err "ValueError"
   | VObj "rankecho" _ => Ok (VList [arg_or 0 "a" pos kw; VInt rank])
+  | VObj "retnone" _ => Ok VNone
   | VObj "preset" id => Ok (VDict [(VStr "b", VInt id)])
   | VObj "preset2" id => Ok (VDict [(VStr "a", VInt id); (VStr "zz", VInt 1)])
   | VObj "badinit" _ => Err "RuntimeError"
